@@ -345,6 +345,7 @@ func runC02R4(c *eng.Ctx, r *eng.RuleCtx) {
 	// call sites of SnapshotsFor inside package controller's HookController (excluding SnapshotsFrom of the bindings controller)
 	n := 0
 	var cacheVars []types.Object
+	fetched := map[*types.Var]bool{} // locals that hold a snapshot which is stored into the cache right after it was fetched
 	for _, fn := range []*types.Func{snapFor, snapForC} {
 		for _, s := range p.Sites(fn) {
 			if s.In == nil || !strings.Contains(s.In.Key, "(*HookController)") {
@@ -367,6 +368,34 @@ func runC02R4(c *eng.Ctx, r *eng.RuleCtx) {
 			if as, ok := node.Node.(*ast.AssignStmt); ok && len(as.Lhs) == 1 {
 				if ix, isIx := ast.Unparen(as.Lhs[0]).(*ast.IndexExpr); isIx {
 					m, key = eng.SelObj(info, ix.X), ix.Index
+				} else if lv, isV := eng.SelObj(info, as.Lhs[0]).(*types.Var); isV && !lv.IsField() {
+					// v = SnapshotsFor(k) ... M[k] = v : the store must follow on every path before the iteration ends
+					var storeNode *eng.GNode
+					for _, sn := range sg.Nodes {
+						st, isA := sn.Node.(*ast.AssignStmt)
+						if !isA || len(st.Lhs) != 1 || len(st.Rhs) != 1 || eng.SelObj(info, st.Rhs[0]) != types.Object(lv) {
+							continue
+						}
+						if ix, isIx := ast.Unparen(st.Lhs[0]).(*ast.IndexExpr); isIx {
+							if tv, has := info.Types[ix.X]; has {
+								if _, isMap := tv.Type.Underlying().(*types.Map); isMap {
+									storeNode = sn
+									m, key = eng.SelObj(info, ix.X), ix.Index
+								}
+							}
+						}
+					}
+					if storeNode != nil {
+						reach := sg.Reach(eng.Query{From: []*eng.GNode{node}, AvoidNode: func(x *eng.GNode) bool { return x == storeNode }})
+						for x := range reach {
+							if x != storeNode && (x.Exit || (x.Node == nil && strings.HasSuffix(x.Block.Kind.String(), "Loop"))) {
+								m = nil // a path leaves the iteration without storing the fetched snapshot
+							}
+						}
+					}
+					if m != nil {
+						fetched[lv] = true
+					}
 				}
 			}
 			if m == nil {
@@ -428,10 +457,31 @@ func runC02R4(c *eng.Ctx, r *eng.RuleCtx) {
 		if !ok || len(as.Lhs) != 1 || len(as.Rhs) != 1 {
 			return true
 		}
-		fromCache := func(e ast.Expr) bool {
-			ix, isIx := ast.Unparen(e).(*ast.IndexExpr)
-			return isIx && cacheSet[eng.SelObj(info, ix.X)]
+		var fromCacheD func(e ast.Expr, depth int) bool
+		fromCacheD = func(e ast.Expr, depth int) bool {
+			if ix, isIx := ast.Unparen(e).(*ast.IndexExpr); isIx {
+				return cacheSet[eng.SelObj(info, ix.X)]
+			}
+			// a local all of whose values are cache entries (looked up, or fetched and stored into the cache)
+			lv, isV := eng.SelObj(info, e).(*types.Var)
+			if !isV || lv.IsField() || depth > 3 {
+				return false
+			}
+			exprs := eng.AssignedExprs(info, f.Decl.Body, lv)
+			if len(exprs) == 0 {
+				return false
+			}
+			for _, x := range exprs {
+				if cl, isC := ast.Unparen(x).(*ast.CallExpr); isC && fetched[lv] && (eng.CalleeOf(info, cl) == types.Object(snapFor) || eng.CalleeOf(info, cl) == types.Object(snapForC)) {
+					continue
+				}
+				if !fromCacheD(x, depth+1) {
+					return false
+				}
+			}
+			return true
 		}
+		fromCache := func(e ast.Expr) bool { return fromCacheD(e, 0) }
 		if eng.IsField(info, as.Lhs[0], objectsFld) && fromCache(as.Rhs[0]) {
 			okObj = true
 		}
